@@ -49,13 +49,18 @@ LEVEL_NOTE = "Trusted: vf/sansio.py's model of connection teardown (one Connecti
 ACTIONS = ["pass", "pass", "pass", "kill", "setresp", "stream", "delay"]
 
 
-def fault_policy(spec, salt, taken, ctx):
+def fault_policy(spec, salt, taken, ctx, bias=False):
+    # with an early-answering origin, bias towards the window the streaming state machine is most fragile in: the request
+    # body is streamed, the response has started (head or part of the body) and the flow is killed / delayed at the request hook
+
     def policy(drv, hook):
         f = getattr(hook, "flow", None)
         if not isinstance(f, http.HTTPFlow) or hook.name not in ("requestheaders", "request", "responseheaders", "response"):
             return None
         r = random.Random(f"{salt}/{f.request.path}/{hook.name}")
         a = r.choice(ACTIONS)
+        if bias:
+            a = {"requestheaders": "stream", "request": r.choice(["kill", "kill", "delay", "pass"]), "responseheaders": r.choice(["pass", "delay", "stream"])}.get(hook.name, a)
         if a == "kill":
             if f.killable:
                 f.kill()
@@ -319,14 +324,15 @@ def run(ctx):
                 elif kind == "connect_refused":
                     kw["open_plan"] = lambda drv, conn, n, arg=arg: "Connection refused (injected)" if n == arg else None
                     ctx.count("fault.connect_refused")
-                pol = fault_policy(spec, salt, taken, ctx) if salt != "nopolicy" else None
                 sched = r.choice(["fifo", "random", "random"])
                 # an origin that answers as soon as it has the request head (matters when the request body is streamed)
                 early = r.random() < 0.3
                 if early:
                     ctx.count("early_origin_runs")
+                bias = early and salt != "nopolicy" and r.random() < 0.6
+                pol = fault_policy(spec, salt, taken, ctx, bias) if salt != "nopolicy" else None
                 try:
-                    d, info = h1case.execute(spec, opts, r, client_seg=r.choice(["whole", "random", "bytes"]) if len(stream) < 1500 else "random", server_seg=r.choice(["whole", "random"]), schedule=sched, extra_policy=pol, client_eof=r.random() < 0.2, early_origin=early, **kw)
+                    d, info = h1case.execute(spec, opts, r, client_seg=r.choice(["whole", "random", "bytes"]) if len(stream) < 1500 else "random", server_seg="bytes" if bias else r.choice(["whole", "random"]), schedule="random" if bias else sched, extra_policy=pol, client_eof=r.random() < 0.2, early_origin=early, **kw)
                 except Exception as e:
                     ctx.violation("harness-or-layer-crash", {"stream": stream, "fault": (kind, arg), "exc": repr(e)})
                     continue
